@@ -232,5 +232,130 @@ theorem contract_CSb_FluorLine_Kissel : Contract (Gen.CSb_FluorLine_Kissel T Z l
 
 end fluor
 
+/-! ## "passing no error slot changes nothing but the reporting" (shell and line functions) -/
+
+theorem null_slot_of_meets {f : Slot → M (ℝ × Slot)} {x : Expect ℝ}
+    (h : ∀ error : Slot, error.isFull = false → Meets (f error) error x) (hx : x ≠ .any) :
+    ∃ v s, f Slot.null = Except.ok (v, Slot.null) ∧ f Slot.empty = Except.ok (v, s) :=
+  null_slot_same_value (h Slot.null rfl) (h Slot.empty rfl) hx
+
+section nullslot
+variable (T : Tables ℝ) (Z shell line : Int) (E : ℝ) (own : Int → Expect ℝ) (ho : C08.OwnOK T Z E own)
+include ho
+
+theorem null_slot_CS_FluorShell_Kissel_no_Cascade : ∃ v s, Gen.CS_FluorShell_Kissel_no_Cascade T Z shell E Slot.null = Except.ok (v, Slot.null) ∧ Gen.CS_FluorShell_Kissel_no_Cascade T Z shell E Slot.empty = Except.ok (v, s) :=
+  null_slot_of_meets (f := Gen.CS_FluorShell_Kissel_no_Cascade T Z shell E) (fun e he => C08.fluorshell_spec_none T Z E e own shell he ho)
+    (C08.fluorShell_ne_any T Z E ho.ne_any shell)
+theorem null_slot_CSb_FluorShell_Kissel_no_Cascade : ∃ v s, Gen.CSb_FluorShell_Kissel_no_Cascade T Z shell E Slot.null = Except.ok (v, Slot.null) ∧ Gen.CSb_FluorShell_Kissel_no_Cascade T Z shell E Slot.empty = Except.ok (v, s) :=
+  null_slot_of_meets (f := Gen.CSb_FluorShell_Kissel_no_Cascade T Z shell E) (fun e he => C08.barn_twin_shell_none T Z E e shell own he ho)
+    (toBarnW_ne_any (C08.fluorShell_ne_any T Z E ho.ne_any shell))
+theorem null_slot_CS_FluorLine_Kissel_no_Cascade : ∃ v s, Gen.CS_FluorLine_Kissel_no_Cascade T Z line E Slot.null = Except.ok (v, Slot.null) ∧ Gen.CS_FluorLine_Kissel_no_Cascade T Z line E Slot.empty = Except.ok (v, s) := by
+  by_cases hl : line ∈ C08.intraM
+  · exact null_slot_of_meets (f := Gen.CS_FluorLine_Kissel_no_Cascade T Z line E) (x := .fails)
+      (fun e he => C08.fluorline_intraM_rejected_none T Z E e line he hl) (by simp)
+  · exact null_slot_of_meets (f := Gen.CS_FluorLine_Kissel_no_Cascade T Z line E)
+      (fun e he => C08.fluorline_spec_none T Z E e line own he ho (fun h => absurd h hl))
+      (C08.fluorLine_ne_any T Z E own ho.ne_any line)
+theorem null_slot_CSb_FluorLine_Kissel_no_Cascade : ∃ v s, Gen.CSb_FluorLine_Kissel_no_Cascade T Z line E Slot.null = Except.ok (v, Slot.null) ∧ Gen.CSb_FluorLine_Kissel_no_Cascade T Z line E Slot.empty = Except.ok (v, s) := by
+  by_cases hl : line ∈ C08.intraM
+  · exact null_slot_of_meets (f := Gen.CSb_FluorLine_Kissel_no_Cascade T Z line E) (x := toBarnW (T.AtomicWeight_arr Z.toNat) .fails)
+      (fun e he => by
+        unfold Gen.CSb_FluorLine_Kissel_no_Cascade
+        exact C08.barn_twin_kissel T Z e (Gen.CS_FluorLine_Kissel_no_Cascade T Z line E) .fails
+          (C08.fluorline_intraM_rejected_none T Z E e line he hl) (fun _ h => by cases h)) (by simp [toBarnW])
+  · exact null_slot_of_meets (f := Gen.CSb_FluorLine_Kissel_no_Cascade T Z line E)
+      (fun e he => C08.barn_twin_line_none T Z E e line own he ho (fun h => absurd h hl))
+      (toBarnW_ne_any (C08.fluorLine_ne_any T Z E own ho.ne_any line))
+theorem null_slot_CS_FluorShell_Kissel_Radiative_Cascade : ∃ v s, Gen.CS_FluorShell_Kissel_Radiative_Cascade T Z shell E Slot.null = Except.ok (v, Slot.null) ∧ Gen.CS_FluorShell_Kissel_Radiative_Cascade T Z shell E Slot.empty = Except.ok (v, s) :=
+  null_slot_of_meets (f := Gen.CS_FluorShell_Kissel_Radiative_Cascade T Z shell E) (fun e he => C08.fluorshell_spec_rad T Z E e own shell he ho)
+    (C08.fluorShell_ne_any T Z E ho.ne_any shell)
+theorem null_slot_CSb_FluorShell_Kissel_Radiative_Cascade : ∃ v s, Gen.CSb_FluorShell_Kissel_Radiative_Cascade T Z shell E Slot.null = Except.ok (v, Slot.null) ∧ Gen.CSb_FluorShell_Kissel_Radiative_Cascade T Z shell E Slot.empty = Except.ok (v, s) :=
+  null_slot_of_meets (f := Gen.CSb_FluorShell_Kissel_Radiative_Cascade T Z shell E) (fun e he => C08.barn_twin_shell_rad T Z E e shell own he ho)
+    (toBarnW_ne_any (C08.fluorShell_ne_any T Z E ho.ne_any shell))
+theorem null_slot_CS_FluorLine_Kissel_Radiative_Cascade : ∃ v s, Gen.CS_FluorLine_Kissel_Radiative_Cascade T Z line E Slot.null = Except.ok (v, Slot.null) ∧ Gen.CS_FluorLine_Kissel_Radiative_Cascade T Z line E Slot.empty = Except.ok (v, s) := by
+  by_cases hl : line ∈ C08.intraM
+  · exact null_slot_of_meets (f := Gen.CS_FluorLine_Kissel_Radiative_Cascade T Z line E) (x := .fails)
+      (fun e he => C08.fluorline_intraM_rejected_rad T Z E e line he hl) (by simp)
+  · exact null_slot_of_meets (f := Gen.CS_FluorLine_Kissel_Radiative_Cascade T Z line E)
+      (fun e he => C08.fluorline_spec_rad T Z E e line own he ho (fun h => absurd h hl))
+      (C08.fluorLine_ne_any T Z E own ho.ne_any line)
+theorem null_slot_CSb_FluorLine_Kissel_Radiative_Cascade : ∃ v s, Gen.CSb_FluorLine_Kissel_Radiative_Cascade T Z line E Slot.null = Except.ok (v, Slot.null) ∧ Gen.CSb_FluorLine_Kissel_Radiative_Cascade T Z line E Slot.empty = Except.ok (v, s) := by
+  by_cases hl : line ∈ C08.intraM
+  · exact null_slot_of_meets (f := Gen.CSb_FluorLine_Kissel_Radiative_Cascade T Z line E) (x := toBarnW (T.AtomicWeight_arr Z.toNat) .fails)
+      (fun e he => by
+        unfold Gen.CSb_FluorLine_Kissel_Radiative_Cascade
+        exact C08.barn_twin_kissel T Z e (Gen.CS_FluorLine_Kissel_Radiative_Cascade T Z line E) .fails
+          (C08.fluorline_intraM_rejected_rad T Z E e line he hl) (fun _ h => by cases h)) (by simp [toBarnW])
+  · exact null_slot_of_meets (f := Gen.CSb_FluorLine_Kissel_Radiative_Cascade T Z line E)
+      (fun e he => C08.barn_twin_line_rad T Z E e line own he ho (fun h => absurd h hl))
+      (toBarnW_ne_any (C08.fluorLine_ne_any T Z E own ho.ne_any line))
+theorem null_slot_CS_FluorShell_Kissel_Nonradiative_Cascade : ∃ v s, Gen.CS_FluorShell_Kissel_Nonradiative_Cascade T Z shell E Slot.null = Except.ok (v, Slot.null) ∧ Gen.CS_FluorShell_Kissel_Nonradiative_Cascade T Z shell E Slot.empty = Except.ok (v, s) :=
+  null_slot_of_meets (f := Gen.CS_FluorShell_Kissel_Nonradiative_Cascade T Z shell E) (fun e he => C08.fluorshell_spec_auger T Z E e own shell he ho)
+    (C08.fluorShell_ne_any T Z E ho.ne_any shell)
+theorem null_slot_CSb_FluorShell_Kissel_Nonradiative_Cascade : ∃ v s, Gen.CSb_FluorShell_Kissel_Nonradiative_Cascade T Z shell E Slot.null = Except.ok (v, Slot.null) ∧ Gen.CSb_FluorShell_Kissel_Nonradiative_Cascade T Z shell E Slot.empty = Except.ok (v, s) :=
+  null_slot_of_meets (f := Gen.CSb_FluorShell_Kissel_Nonradiative_Cascade T Z shell E) (fun e he => C08.barn_twin_shell_auger T Z E e shell own he ho)
+    (toBarnW_ne_any (C08.fluorShell_ne_any T Z E ho.ne_any shell))
+theorem null_slot_CS_FluorLine_Kissel_Nonradiative_Cascade : ∃ v s, Gen.CS_FluorLine_Kissel_Nonradiative_Cascade T Z line E Slot.null = Except.ok (v, Slot.null) ∧ Gen.CS_FluorLine_Kissel_Nonradiative_Cascade T Z line E Slot.empty = Except.ok (v, s) := by
+  by_cases hl : line ∈ C08.intraM
+  · exact null_slot_of_meets (f := Gen.CS_FluorLine_Kissel_Nonradiative_Cascade T Z line E) (x := .fails)
+      (fun e he => C08.fluorline_intraM_rejected_auger T Z E e line he hl) (by simp)
+  · exact null_slot_of_meets (f := Gen.CS_FluorLine_Kissel_Nonradiative_Cascade T Z line E)
+      (fun e he => C08.fluorline_spec_auger T Z E e line own he ho (fun h => absurd h hl))
+      (C08.fluorLine_ne_any T Z E own ho.ne_any line)
+theorem null_slot_CSb_FluorLine_Kissel_Nonradiative_Cascade : ∃ v s, Gen.CSb_FluorLine_Kissel_Nonradiative_Cascade T Z line E Slot.null = Except.ok (v, Slot.null) ∧ Gen.CSb_FluorLine_Kissel_Nonradiative_Cascade T Z line E Slot.empty = Except.ok (v, s) := by
+  by_cases hl : line ∈ C08.intraM
+  · exact null_slot_of_meets (f := Gen.CSb_FluorLine_Kissel_Nonradiative_Cascade T Z line E) (x := toBarnW (T.AtomicWeight_arr Z.toNat) .fails)
+      (fun e he => by
+        unfold Gen.CSb_FluorLine_Kissel_Nonradiative_Cascade
+        exact C08.barn_twin_kissel T Z e (Gen.CS_FluorLine_Kissel_Nonradiative_Cascade T Z line E) .fails
+          (C08.fluorline_intraM_rejected_auger T Z E e line he hl) (fun _ h => by cases h)) (by simp [toBarnW])
+  · exact null_slot_of_meets (f := Gen.CSb_FluorLine_Kissel_Nonradiative_Cascade T Z line E)
+      (fun e he => C08.barn_twin_line_auger T Z E e line own he ho (fun h => absurd h hl))
+      (toBarnW_ne_any (C08.fluorLine_ne_any T Z E own ho.ne_any line))
+theorem null_slot_CS_FluorShell_Kissel_Cascade : ∃ v s, Gen.CS_FluorShell_Kissel_Cascade T Z shell E Slot.null = Except.ok (v, Slot.null) ∧ Gen.CS_FluorShell_Kissel_Cascade T Z shell E Slot.empty = Except.ok (v, s) :=
+  null_slot_of_meets (f := Gen.CS_FluorShell_Kissel_Cascade T Z shell E) (fun e he => C08.fluorshell_spec_full T Z E e own shell he ho)
+    (C08.fluorShell_ne_any T Z E ho.ne_any shell)
+theorem null_slot_CSb_FluorShell_Kissel_Cascade : ∃ v s, Gen.CSb_FluorShell_Kissel_Cascade T Z shell E Slot.null = Except.ok (v, Slot.null) ∧ Gen.CSb_FluorShell_Kissel_Cascade T Z shell E Slot.empty = Except.ok (v, s) :=
+  null_slot_of_meets (f := Gen.CSb_FluorShell_Kissel_Cascade T Z shell E) (fun e he => C08.barn_twin_shell_full T Z E e shell own he ho)
+    (toBarnW_ne_any (C08.fluorShell_ne_any T Z E ho.ne_any shell))
+theorem null_slot_CS_FluorLine_Kissel_Cascade : ∃ v s, Gen.CS_FluorLine_Kissel_Cascade T Z line E Slot.null = Except.ok (v, Slot.null) ∧ Gen.CS_FluorLine_Kissel_Cascade T Z line E Slot.empty = Except.ok (v, s) := by
+  by_cases hl : line ∈ C08.intraM
+  · exact null_slot_of_meets (f := Gen.CS_FluorLine_Kissel_Cascade T Z line E) (x := .fails)
+      (fun e he => C08.fluorline_intraM_rejected_full T Z E e line he hl) (by simp)
+  · exact null_slot_of_meets (f := Gen.CS_FluorLine_Kissel_Cascade T Z line E)
+      (fun e he => C08.fluorline_spec_full T Z E e line own he ho (fun h => absurd h hl))
+      (C08.fluorLine_ne_any T Z E own ho.ne_any line)
+theorem null_slot_CSb_FluorLine_Kissel_Cascade : ∃ v s, Gen.CSb_FluorLine_Kissel_Cascade T Z line E Slot.null = Except.ok (v, Slot.null) ∧ Gen.CSb_FluorLine_Kissel_Cascade T Z line E Slot.empty = Except.ok (v, s) := by
+  by_cases hl : line ∈ C08.intraM
+  · exact null_slot_of_meets (f := Gen.CSb_FluorLine_Kissel_Cascade T Z line E) (x := toBarnW (T.AtomicWeight_arr Z.toNat) .fails)
+      (fun e he => by
+        unfold Gen.CSb_FluorLine_Kissel_Cascade
+        exact C08.barn_twin_kissel T Z e (Gen.CS_FluorLine_Kissel_Cascade T Z line E) .fails
+          (C08.fluorline_intraM_rejected_full T Z E e line he hl) (fun _ h => by cases h)) (by simp [toBarnW])
+  · exact null_slot_of_meets (f := Gen.CSb_FluorLine_Kissel_Cascade T Z line E)
+      (fun e he => C08.barn_twin_line_full T Z E e line own he ho (fun h => absurd h hl))
+      (toBarnW_ne_any (C08.fluorLine_ne_any T Z E own ho.ne_any line))
+theorem null_slot_CS_FluorShell_Kissel : ∃ v s, Gen.CS_FluorShell_Kissel T Z shell E Slot.null = Except.ok (v, Slot.null) ∧ Gen.CS_FluorShell_Kissel T Z shell E Slot.empty = Except.ok (v, s) :=
+  null_slot_of_meets (f := Gen.CS_FluorShell_Kissel T Z shell E) (fun e he => C08.fluorshell_spec T Z E e own shell he ho)
+    (C08.fluorShell_ne_any T Z E ho.ne_any shell)
+theorem null_slot_CSb_FluorShell_Kissel : ∃ v s, Gen.CSb_FluorShell_Kissel T Z shell E Slot.null = Except.ok (v, Slot.null) ∧ Gen.CSb_FluorShell_Kissel T Z shell E Slot.empty = Except.ok (v, s) :=
+  null_slot_of_meets (f := Gen.CSb_FluorShell_Kissel T Z shell E) (fun e he => C08.barn_twin_shell T Z E e shell own he ho)
+    (toBarnW_ne_any (C08.fluorShell_ne_any T Z E ho.ne_any shell))
+theorem null_slot_CS_FluorLine_Kissel : ∃ v s, Gen.CS_FluorLine_Kissel T Z line E Slot.null = Except.ok (v, Slot.null) ∧ Gen.CS_FluorLine_Kissel T Z line E Slot.empty = Except.ok (v, s) := by
+  simp only [C08.unsuffixed_is_full_line]
+  exact null_slot_CS_FluorLine_Kissel_Cascade T Z line E own ho
+theorem null_slot_CSb_FluorLine_Kissel : ∃ v s, Gen.CSb_FluorLine_Kissel T Z line E Slot.null = Except.ok (v, Slot.null) ∧ Gen.CSb_FluorLine_Kissel T Z line E Slot.empty = Except.ok (v, s) := by
+  by_cases hl : line ∈ C08.intraM
+  · exact null_slot_of_meets (f := Gen.CSb_FluorLine_Kissel T Z line E) (x := toBarnW (T.AtomicWeight_arr Z.toNat) .fails)
+      (fun e he => by
+        unfold Gen.CSb_FluorLine_Kissel
+        exact C08.barn_twin_kissel T Z e (Gen.CS_FluorLine_Kissel_Cascade T Z line E) .fails
+          (C08.fluorline_intraM_rejected_full T Z E e line he hl) (fun _ h => by cases h)) (by simp [toBarnW])
+  · exact null_slot_of_meets (f := Gen.CSb_FluorLine_Kissel T Z line E)
+      (fun e he => C08.barn_twin_line T Z E e line own he ho (fun h => absurd h hl))
+      (toBarnW_ne_any (C08.fluorLine_ne_any T Z E own ho.ne_any line))
+
+end nullslot
+
 end C03
 end Xrl
